@@ -150,7 +150,8 @@ ParseInst(ws, pos, types) ==
       wc == WordCountOf(first)
       opc == OpcodeOf(first)
   IN
-  IF wc = 0 THEN [st |-> "fault", class |-> "wc-zero", wc |-> 0, info |-> <<>>]
+  \* (info: the opcode number when it is ALSO unknown - an instruction can have both faults)
+  IF wc = 0 THEN [st |-> "fault", class |-> "wc-zero", wc |-> 0, info |-> IF IsOpcode(opc) THEN <<>> ELSE <<opc>>]
   ELSE IF ~IsOpcode(opc) THEN [st |-> "fault", class |-> "opcode-unknown", wc |-> wc, info |-> <<opc>>]
   ELSE
     LET g == Inst(opc).ops
@@ -198,7 +199,11 @@ ParseInsts(ws, pos, idx, types, acc) ==
 
 \* full outcome, ignoring the consumer: header verdict, delivered instructions, first fault
 Parse(ws) ==
-  IF Len(ws) < HeaderWords THEN [hdr |-> "incomplete", insts |-> <<>>, fault |-> <<>>]
+  \* (a header that is too short may in addition start with a wrong / byte-swapped magic number: both are faults of it)
+  IF Len(ws) < HeaderWords
+  THEN [hdr |-> IF Len(ws) >= 1 /\ ws[1] = SwappedMagic THEN "incomplete-endianness"
+                ELSE IF Len(ws) >= 1 /\ ws[1] # MagicWord THEN "incomplete-incorrect" ELSE "incomplete",
+        insts |-> <<>>, fault |-> <<>>]
   ELSE IF ws[1] = SwappedMagic THEN [hdr |-> "endianness", insts |-> <<>>, fault |-> <<>>]
   ELSE IF ws[1] # MagicWord THEN [hdr |-> "incorrect", insts |-> <<>>, fault |-> <<>>]
   ELSE LET r == ParseInsts(ws, HeaderWords + 1, 1, NoTypes, <<>>) IN
@@ -211,19 +216,9 @@ Accepted(ws) == LET r == Parse(ws) IN r.hdr = "ok" /\ r.fault = <<>>
 (*   <<"Err", kind, off, index, ...>> ; for OperandError / HeaderIncomplete *)
 (*   e = <<"Err", kind, decodeKind, off, (word, enumKind)>>.                *)
 StreamEnd == {"StreamExpected", "LimitReached"}
-ErrAdmissible(f, e) ==
-  LET kind == e[2]
-      located == kind \in {"WordCountZero", "OpcodeUnknown", "OperandExpected", "OperandExceeded",
-                           "TypeUnsupported", "SpecConstantOpIntegerIncorrect"}
-      \* "the instruction number and byte offset it carries are the 1-based number of the first
-      \*  malformed instruction and an offset inside that instruction's declared extent"
-      locOK == located => (e[4] = f.index /\ e[3] >= f.start /\ e[3] <= f.start + 4 * f.wc)
-      decOK == kind = "OperandError" => (e[4] >= f.start /\ e[4] <= f.start + 4 * f.wc)
-      truncOK == \/ kind = "OperandExpected"
-                 \/ kind = "OperandError" /\ e[3] \in StreamEnd
-  IN
-  /\ locOK /\ decOK
-  /\ CASE f.class = "wc-zero"        -> kind = "WordCountZero"
+\* the error kinds that name fault class f.class (see ErrAdmissible)
+ClassAdmits(f, e, kind, truncOK) ==
+  CASE f.class = "wc-zero"        -> kind = "WordCountZero"
        [] f.class = "opcode-unknown" -> kind = "OpcodeUnknown" /\ e[5] = f.info[1]
        \* a required operand is missing: "expected more operands", or the limit / stream-end error
        \* of the decoder request that looked for it (the repository's own test expects the latter
@@ -241,8 +236,29 @@ ErrAdmissible(f, e) ==
                                                    "OperandError", "TypeUnsupported"}
        [] OTHER -> FALSE
 
+ErrAdmissible(f, e) ==
+  LET kind == e[2]
+      located == kind \in {"WordCountZero", "OpcodeUnknown", "OperandExpected", "OperandExceeded",
+                           "TypeUnsupported", "SpecConstantOpIntegerIncorrect"}
+      \* "the instruction number and byte offset it carries are the 1-based number of the first
+      \*  malformed instruction and an offset inside that instruction's declared extent"
+      locOK == located => (e[4] = f.index /\ e[3] >= f.start /\ e[3] <= f.start + 4 * f.wc)
+      decOK == kind = "OperandError" => (e[4] >= f.start /\ e[4] <= f.start + 4 * f.wc)
+      truncOK == \/ kind = "OperandExpected"
+                 \/ kind = "OperandError" /\ e[3] \in StreamEnd
+  IN
+  /\ locOK /\ decOK
+  \* The property names fault KINDS and asks that the error name "the kind of fault" of the first malformed
+  \* instruction; it does not rank several faults of ONE instruction.  An instruction that also reaches past the
+  \* end of the stream may be reported as cut short; one with a zero word count AND an unknown opcode as either.
+  /\ \/ f.cut /\ truncOK
+     \/ f.class = "wc-zero" /\ f.info # <<>> /\ kind = "OpcodeUnknown" /\ e[5] = f.info[1]
+     \/ ClassAdmits(f, e, kind, truncOK)
+
 HeaderErrAdmissible(h, e) ==
   CASE h = "incomplete" -> e[2] = "HeaderIncomplete"
+    [] h = "incomplete-incorrect"  -> e[2] \in {"HeaderIncomplete", "HeaderIncorrect"}
+    [] h = "incomplete-endianness" -> e[2] \in {"HeaderIncomplete", "EndiannessUnsupported"}
     [] h = "endianness" -> e[2] = "EndiannessUnsupported"
     [] h = "incorrect"  -> e[2] = "HeaderIncorrect"
     [] OTHER -> FALSE
